@@ -5,6 +5,8 @@ import (
 	"time"
 
 	v1 "k8s.io/api/core/v1"
+	metav1 "k8s.io/apimachinery/pkg/apis/meta/v1"
+	"k8s.io/apimachinery/pkg/types"
 
 	"verif/internal/explore"
 	"verif/internal/gen"
@@ -229,4 +231,83 @@ func faultPhase(rep *explore.Report, prop string, kinds []string, on func(c *wor
 	sub.MergeInto(rep)
 	rep.AddStates(int64(len(g.Nodes)), g.Transitions)
 	rep.Extra["fault_phase"] = map[string]interface{}{"kinds": kinds, "states": len(g.Nodes), "reconciles": g.Reconciles, "complete": g.Complete}
+}
+
+// c14ClaimsPhase: Parallel sets with volume claim templates. Per ordinal the pod is absent, Ready or not Ready and the
+// ordinal's claims are absent, present or being deleted (deletion timestamp, held by the pvc-protection finalizer, in
+// cache and API alike): a claim in any of those states is no reason to skip another ordinal's creation or deletion.
+func c14ClaimsPhase(rep *explore.Report) {
+	const n = 4
+	type pat struct{ pods, claims [n]int }
+	var cases []explore.Case
+	claimLists := [][]string{{"data"}}
+	if explore.Tier() == "thorough" {
+		claimLists = append(claimLists, []string{"data", "logs"})
+	}
+	universe := []int32{0, 1, 2, 3}
+	for _, claims := range claimLists {
+		for r := int32(2); r <= 3; r++ {
+			for _, slots := range gen.Subsets(universe, 1) {
+				sp := gen.Spec{Name: "web", Replicas: r, Slots: slots, Policy: "Parallel", Strategy: gen.RU(0), Limit: 10, Template: 1, Claims: claims}
+				for code := 0; code < 81*81; code++ {
+					var p pat
+					x := code
+					for i := 0; i < n; i++ {
+						p.pods[i] = x % 3
+						x /= 3
+					}
+					for i := 0; i < n; i++ {
+						p.claims[i] = x % 3
+						x /= 3
+					}
+					sp, p := sp, p
+					label := fmt.Sprintf("%s pods(0 absent,1 Ready,2 not Ready)=%v claims(0 absent,1 present,2 being deleted)=%v", sp, p.pods, p.claims)
+					cases = append(cases, explore.Case{Label: label, Build: func(w *world.World) *world.State {
+						cells := make([]gen.Cell, n)
+						for i := 0; i < n; i++ {
+							switch p.pods[i] {
+							case 1:
+								cells[i] = gen.ReadyAt(0)
+							case 2:
+								cells[i] = gen.ReadyAt(0)
+								cells[i].Ready = false
+							}
+						}
+						st := gen.Scenario{Spec: sp, Revs: []int{1}, Cur: 0, Cells: cells}.Build(w)
+						for i := 0; i < n; i++ {
+							for _, t := range sp.Claims {
+								name := fmt.Sprintf("%s-web-%d", t, i)
+								k := world.ObjKey(world.NS, name)
+								switch p.claims[i] {
+								case 0:
+									delete(st.API.PVCs, k)
+								default:
+									pvc := &v1.PersistentVolumeClaim{ObjectMeta: metav1.ObjectMeta{Name: name, Namespace: world.NS, UID: types.UID("uid-" + name), ResourceVersion: "1", Labels: map[string]string{"app": "web"}}}
+									if p.claims[i] == 2 {
+										ts := metav1.NewTime(time.Unix(1_600_000_100, 0).UTC())
+										pvc.DeletionTimestamp = &ts
+										pvc.Finalizers = []string{"kubernetes.io/pvc-protection"}
+									}
+									st.API.PVCs[k] = pvc
+								}
+							}
+						}
+						st.SyncCaches()
+						return st
+					}})
+				}
+			}
+		}
+	}
+	var k int64
+	explore.RunSnapshots(rep, explore.Deadline(60*time.Second, 10*time.Minute), func(emit func(explore.Case) bool) {
+		for _, c := range cases {
+			k++
+			if !emit(c) {
+				return
+			}
+		}
+	}, monitorOf("C14"))
+	rep.AddStates(k, k)
+	rep.Extra["claims_phase_cases"] = k
 }
